@@ -318,7 +318,7 @@ impl<'a> Harm<'a> {
             Op::Reopen { lazy, remove_all_idx, damage } => {
                 self.reopen(*lazy, *remove_all_idx, damage, &[]).await;
             }
-            Op::Fail { .. } | Op::Cancel { .. } | Op::Burst { .. } | Op::CrashReopen { .. } | Op::Probe { .. } | Op::Abandon { .. } => {}
+            Op::Fail { .. } | Op::Cancel { .. } | Op::Burst { .. } | Op::CrashReopen { .. } | Op::Probe { .. } | Op::Abandon { .. } | Op::InitAgain => {}
         }
     }
 
@@ -545,6 +545,130 @@ fn sample_self(c: &SelfCase) -> Value {
     json!({"keylen": c.cfg.keylen, "ops": render_ops(&c.ops), "tool": c.tool, "spelling": c.spelling, "respell_input": c.respell_input, "validate_every": c.validate_every})
 }
 
+// ------------------------------------------------------------------------------------------------
+// phase "two-process": a second process tries to use the directory while the first one holds it
+// ------------------------------------------------------------------------------------------------
+
+/// The storage of this process is open on the directory (its blobs created in this session, or opened from existing files
+/// after a restart); a second process (this binary, `child-c07`) initialises a storage on the same directory and, if that
+/// works, writes three records and exits. Whatever the second process achieves, the bytes that are in the blob files when it
+/// has exited are still a prefix of every blob after this process has written again, and every blob still parses.
+/// (The harness does not open any blob file between opening the storage and the exit of the child: closing any descriptor
+/// of a file drops the process's POSIX locks on it, which would fake the very fault this phase looks for.)
+#[derive(Clone, Debug, Serialize, Deserialize)]
+pub struct LockCase {
+    pub cfg: Cfg,
+    pub ops: Vec<Op>,
+    /// restart before the second process comes (the files are then held through `open`, not `create`)
+    pub reopened: bool,
+    pub reopened_lazy: bool,
+    pub child_lazy: bool,
+}
+
+pub fn lock_strategy() -> BoxedStrategy<LockCase> {
+    let gen = GenParams { nkeys: 4, ts_span: 4, metas: 2, max_ops: 12, w_write: 70, w_delete: 10, w_switch: 16, w_wait: 4, w_reopen: 0, ..Default::default() };
+    (prop::sample::select(&[8usize, 33][..]), prop_oneof![Just(2usize), Just(0usize)], prop::collection::vec(op_strategy(&gen), 1..gen.max_ops), prop::bool::weighted(0.7), prop::bool::weighted(0.3), any::<bool>())
+        .prop_map(|(keylen, rt_workers, ops, reopened, reopened_lazy, child_lazy)| LockCase { cfg: Cfg { keylen, rt_workers, allow_dup: true, ..Cfg::default() }, ops, reopened, reopened_lazy, child_lazy })
+        .boxed()
+}
+
+pub fn child_main(arg: &str) -> i32 {
+    let c: LockCase = match serde_json::from_str(arg) {
+        Ok(c) => c,
+        Err(_) => return 3,
+    };
+    let dir = PathBuf::from(std::env::var("C07_DIR").unwrap_or_default());
+    let rt = c.cfg.runtime();
+    rt.block_on(async {
+        let s: Box<dyn Sut> = match sut::open(&c.cfg, &dir, c.child_lazy).await {
+            Ok(s) => s,
+            Err(_) => return 4,
+        };
+        for i in 0..3u8 {
+            if s.write(&key_bytes(c.cfg.keylen, 200 + i), Bytes::from(vec![0xC7u8; 40 + i as usize]), 7, None).await.is_err() {
+                return 5;
+            }
+        }
+        let _ = s.fsyncdata().await;
+        // no close(): the process simply ends, like the intruder it plays
+        0
+    })
+}
+
+pub fn run_lock(c: &LockCase, dir: &Path, findings: &Findings) -> Result<CaseOut, Failure> {
+    let fail = |clause: &str, detail: String| -> Result<CaseOut, Failure> { Err(Failure { clause: clause.into(), detail, step: 0, op: "second process".into() }) };
+    let rt = c.cfg.runtime();
+    let exe = std::env::current_exe().map_err(|e| Failure { clause: "harness/exe".into(), detail: e.to_string(), step: 0, op: String::new() })?;
+    let res = rt.block_on(async {
+        let mut ex = crate::interp::Exec::new(c.cfg.clone(), dir.to_path_buf(), crate::interp::Checks::default(), 4, 2, findings);
+        ex.start().await?;
+        for (i, op) in c.ops.iter().enumerate() {
+            ex.apply(i, op).await?;
+        }
+        if c.reopened {
+            ex.apply(c.ops.len(), &Op::Reopen { lazy: c.reopened_lazy, remove_all_idx: false, damage: vec![] }).await?;
+        }
+        let _ = wait_quiet(ex.s(), false, Duration::from_secs(60)).await;
+        // the second process
+        let arg = serde_json::to_string(c).unwrap_or_default();
+        let dirc = dir.to_path_buf();
+        let status = tokio::task::spawn_blocking(move || std::process::Command::new(&exe).arg("child-c07").arg(arg).env("C07_DIR", &dirc).stdout(std::process::Stdio::null()).stderr(std::process::Stdio::null()).status()).await;
+        let code = match status {
+            Ok(Ok(st)) => st.code().unwrap_or(-1),
+            _ => return fail("harness/spawn", "second process could not be started".into()),
+        };
+        let mut labels = BTreeSet::new();
+        labels.insert(if code == 0 { "second_process_got_in".to_string() } else { "second_process_refused".to_string() });
+        // from here on the harness may look at the files
+        let mut before: Vec<(PathBuf, Vec<u8>)> = vec![];
+        for (_, is_idx, p) in sut::list_files(dir) {
+            if !is_idx {
+                before.push((p.clone(), std::fs::read(&p).unwrap_or_default()));
+            }
+        }
+        // this process goes on: writes, a switch, more writes
+        for i in 0..4u8 {
+            if i == 2 {
+                let _ = ex.s().try_close_active().await;
+                let _ = ex.s().try_create_active().await;
+            }
+            if let Err(e) = ex.s().write(&key_bytes(c.cfg.keylen, i), Bytes::from(vec![0x50 + i; 64]), 9, None).await {
+                return fail("two-process/write-err", format!("write after the second process had gone: {:#}", e));
+            }
+        }
+        let _ = ex.s().fsyncdata().await;
+        let _ = wait_quiet(ex.s(), false, Duration::from_secs(60)).await;
+        for (p, old) in &before {
+            let now = match std::fs::read(p) {
+                Ok(b) => b,
+                Err(e) => return fail("two-process/blob-gone", format!("{:?}: {}", p, e)),
+            };
+            if now.len() < old.len() || now[..old.len()] != old[..] {
+                let at = old.iter().zip(now.iter()).position(|(a, b)| a != b).unwrap_or(now.len().min(old.len()));
+                return fail("two-process/blob-harmed", format!("{:?}: {} bytes were in the file when the second process (exit code {}) had gone; after this process wrote again the file has {} bytes and differs from offset {}", p, old.len(), code, now.len(), at));
+            }
+        }
+        for (_, is_idx, p) in sut::list_files(dir) {
+            if !is_idx {
+                if let Ok(parsed) = blobfmt::parse_blob_file(&p, c.cfg.keylen) {
+                    if parsed.end != blobfmt::ParseEnd::Clean {
+                        return fail("two-process/blob-does-not-parse", format!("{:?}: {:?} (second process exit code {})", p, parsed.end, code));
+                    }
+                }
+            }
+        }
+        let stats = ex.stats.clone();
+        let _ = ex.close().await;
+        Ok(CaseOut { nontrivial: c.reopened, labels, stats, known_hits: Default::default(), weight: 1 })
+    });
+    drop(rt);
+    res
+}
+
+fn sample_lock(c: &LockCase) -> Value {
+    json!({"keylen": c.cfg.keylen, "rt_workers": c.cfg.rt_workers, "ops": render_ops(&c.ops), "restart_before_the_second_process": c.reopened, "restart_lazy": c.reopened_lazy, "second_process_init_lazy": c.child_lazy})
+}
+
 pub fn run(ctx: &RunCtx) -> PropResult {
     let mut report = Report::default();
     let findings = ctx.findings.clone();
@@ -556,10 +680,14 @@ pub fn run(ctx: &RunCtx) -> PropResult {
     run_replays::<SelfCase, _>(ctx, "tools-self", &ctx.verif_dir.join("replays").join("C07"), runf, &mut report);
     let runf = |c: &SelfCase, d: &Path| run_self(c, d, &findings);
     run_generated(ctx, "tools-self", ctx.tier.pick(400, 6000), self_strategy, runf, &sample_self, &mut report);
+    let runf = |c: &LockCase, d: &Path| run_lock(c, d, &findings);
+    run_replays::<LockCase, _>(ctx, "two-process", &ctx.verif_dir.join("replays").join("C07"), runf, &mut report);
+    let runf = |c: &LockCase, d: &Path| run_lock(c, d, &findings);
+    run_generated(ctx, "two-process", ctx.tier.pick(96, 1500), lock_strategy, runf, &sample_lock, &mut report);
     PropResult {
         report,
         level: "exploration",
-        rule: "proptest histories over ALL public calls (data ops, try_close/create/restore, force_update, *_in_background, offload, fsync, free, wait-idle), restarts with index damage, one-shot injected I/O failures (n-th create / open / write / short write / sync on blob or index files, ENOSPC or EIO, hitting client calls, background tasks or a later init alike), and crash-restarts in which blob files are damaged so that init quarantines them (cut inside a record header / body / the blob header, zeroed magic, flipped header byte; data validation on/off; quarantine or ignore; the corrupted dir under its default name, another name, or a two-component relative path). After EVERY step the bytes of every *.blob in the work dir and the corrupted dir are compared with the previous snapshot: earlier bytes must be a prefix of the current bytes, or the file sits byte-identical in the corrupted dir (then immutable); new blob files must carry an id never used by any file of either directory. From the I/O tap: every write to a *.blob starts exactly at the end implied by the earlier writes (a failed write keeps its reserved range: nothing is ever written over it), no truncate/remove ever names a *.blob, renames only move a blob into the corrupted dir without overwriting, and at idle points a batch of every query kind is bracketed by zero write/create/truncate/rename/remove events. A phase tools-self closes a generated small directory and makes one offline-tools call (recovery_blob with either skip value, migrate_blob, move_and_recover_blob) whose output is the input blob itself under a spelling Path equality identifies with it (identical, doubled separators, /./ segments; either argument re-spelled): whatever the call answers, every blob file keeps its earlier bytes as a prefix. Non-trivial = a blob was created after a restart or a quarantine, or a failpoint fired; tools-self: the two spellings differ as strings. distinct = FNV hash of the serialized case.".into(),
+        rule: "proptest histories over ALL public calls (data ops, try_close/create/restore, force_update, *_in_background, offload, fsync, free, wait-idle), restarts with index damage, one-shot injected I/O failures (n-th create / open / write / short write / sync on blob or index files, ENOSPC or EIO, hitting client calls, background tasks or a later init alike), and crash-restarts in which blob files are damaged so that init quarantines them (cut inside a record header / body / the blob header, zeroed magic, flipped header byte; data validation on/off; quarantine or ignore; the corrupted dir under its default name, another name, or a two-component relative path). After EVERY step the bytes of every *.blob in the work dir and the corrupted dir are compared with the previous snapshot: earlier bytes must be a prefix of the current bytes, or the file sits byte-identical in the corrupted dir (then immutable); new blob files must carry an id never used by any file of either directory. From the I/O tap: every write to a *.blob starts exactly at the end implied by the earlier writes (a failed write keeps its reserved range: nothing is ever written over it), no truncate/remove ever names a *.blob, renames only move a blob into the corrupted dir without overwriting, and at idle points a batch of every query kind is bracketed by zero write/create/truncate/rename/remove events. A phase tools-self closes a generated small directory and makes one offline-tools call (recovery_blob with either skip value, migrate_blob, move_and_recover_blob) whose output is the input blob itself under a spelling Path equality identifies with it (identical, doubled separators, /./ segments; either argument re-spelled): whatever the call answers, every blob file keeps its earlier bytes as a prefix. Non-trivial = a blob was created after a restart or a quarantine, or a failpoint fired; tools-self: the two spellings differ as strings. A phase two-process keeps the storage open (blobs created in this session, or opened from existing files after a restart), lets a second process of this binary initialise a storage on the same directory (eager or lazy; if it gets in it writes three records) and then writes again itself: the bytes present when the second process has gone are a prefix of every blob afterwards and every blob parses; the harness opens no blob file while the second process may run (that would drop the first process's POSIX locks). Non-trivial there = the files were held through open, not create. distinct = FNV hash of the serialized case.".into(),
         assumptions: {
             let mut a = common_assumptions();
             a.push("damage applied by the harness itself re-baselines the snapshot (it is the fault, not the system's doing)".into());
@@ -572,6 +700,9 @@ pub fn replay_other(phase: &str, case: &Value, dir: &Path, findings: &Findings) 
     if phase == "harm" {
         let runf = |c: &HarmCase, d: &Path| run_harm(c, d, findings);
         serde_json::from_value::<HarmCase>(case.clone()).ok().map(|c| guarded(&c, dir, &runf))
+    } else if phase == "two-process" {
+        let runf = |c: &LockCase, d: &Path| run_lock(c, d, findings);
+        serde_json::from_value::<LockCase>(case.clone()).ok().map(|c| guarded(&c, dir, &runf))
     } else if phase == "tools-self" {
         let runf = |c: &SelfCase, d: &Path| run_self(c, d, findings);
         serde_json::from_value::<SelfCase>(case.clone()).ok().map(|c| guarded(&c, dir, &runf))
